@@ -5,11 +5,12 @@ let sem_op_of (decls : e2_item list) ((name, a) as it : e2_item) : sem_op op opt
   let is_sem i = (match List.nth_opt decls (int_of_z i) with Some ("sem", _) -> true | _ -> false) in
   let i = e2_arg a 0 z0 in
   match name with
-  | "sem_wait" | "sem_waiti" | "sem_signal" | "sem_count" when not (is_sem i) -> None
+  | "sem_wait" | "sem_waiti" | "sem_signal" | "sem_count" | "sem_head" when not (is_sem i) -> None
   | "sem_wait" -> Some (OUser (SemWait (e2_nat i, e2_u64 (e2_arg a 1 z0), e2_u64 (e2_arg a 2 z0))))
   | "sem_waiti" -> Some (OUser (SemWaitI (e2_nat i, e2_u64 (e2_arg a 1 z0), e2_u64 (e2_arg a 2 z0))))
   | "sem_signal" -> Some (OUser (SemSignal (e2_nat i, e2_u64 (e2_arg a 1 z0))))
   | "sem_count" -> Some (OUser (SemCount (e2_nat i)))
+  | "sem_head" -> Some (OUser (SemHead (e2_nat i)))
   | _ -> (match e2_core_op it with Some c -> Some (OCore c) | None -> None)
 let () =
   iter_lines Sys.argv.(1) (fun l ->
